@@ -693,6 +693,17 @@ theorem noOther_rangeTail (c : Cfg) (bounds : R) (v : PyVal) (hlen : c.length = 
     exact noOther_rangeOrder_pair c a b
   | _ => simp [PyVal.isNone, PyVal.isTuple] at hv
 
+/-- on a number, the Number family tests nothing but the bounds -/
+theorem numberLike_iff (c : Cfg) (x : Ctx) (k : NumKind) (q : ExtRat) (h : NumberLike c (.num k q)) :
+    validate c x (.num k q) = .ok () ↔ InBounds c.bounds c.incl (.num k q) := by
+  rcases h with h | h | ⟨h, hint⟩
+  · rw [number_iff c x _ h]; unfold Sat
+    simp [h, NoneOk, DynamicOk, PyVal.isNone, PyVal.isCallable, PyVal.isNumber]
+  · rw [magnitude_iff c x _ h]; unfold Sat
+    simp [h, NoneOk, DynamicOk, PyVal.isNone, PyVal.isCallable, PyVal.isNumber]
+  · rw [integer_iff c x _ h (by simp [PyVal.isGenFn])]; unfold Sat
+    simp [h, NoneOk, DynamicOk, PyVal.isNone, PyVal.isCallable, hint]
+
 /-! ### NaN -/
 
 @[simp] theorem ExtRat.le_nan_left (a : ExtRat) : ExtRat.le .nan a = false := rfl
@@ -752,6 +763,7 @@ theorem declaredCfg_eq (a : Args) (n : Nat) : declaredCfg a n = { baseCfg a with
 theorem filter_wf (c : Cfg) (h : WF c) : Option.filter (fun c => decide (WF c)) (some c) = some c := by
   simp [Option.filter, h]
 
+set_option linter.unusedVariables false in
 /-- on clean arguments the length the constructor installs is the declared one -/
 theorem modelLength_eq (a : Args) (hc : CleanArgs a) (ht : isTupleFamily a.ptype = true)
     (hn : ¬ ((lengthArg a).isNone = true ∧ (ctorDefault a).isNone = true)) :
